@@ -87,5 +87,10 @@ class VLoop(asyncio.AbstractEventLoop):
                 if h._when > self._now:
                     self._now = h._when
                 self._ready.append(h)
+                # like BaseEventLoop._run_once: every timer that is due now becomes ready in the same iteration
+                while self._timers and (self._timers[0]._cancelled or self._timers[0]._when <= self._now):
+                    h2 = self._timers.pop(0)
+                    if not h2._cancelled:
+                        self._ready.append(h2)
         finally:
             events._set_running_loop(None)
